@@ -112,13 +112,34 @@ func vfC17GcRelabel(t *testing.T, s *vfutil.Session, seed uint64, tag int, src s
 	fired, gcConn, hgetallIdx, relabelEnd := false, -1, -1, -1
 	var relabelErr error
 	var relabelBegan time.Time
+	// where the relabel lands: at the gc's read of the hash (two cases of three: the model's gc pass on the post-relabel
+	// state is compared), or `late` requests of the gc's connection later - in the middle of its scan / its deletes
+	// (sampled, monitors only: the pass then runs on pairs it read BEFORE the relabel)
+	late := 0
+	if r.Chance(1, 3) {
+		late = r.Range(1, 10)
+	}
+	seenGc := 0
 	tg.Hook = func(idx int, e vfdoubles.LogEntry) {
 		mu.Lock()
-		if fired || e.Cmd() != "hgetall" || len(e.Args) < 2 || string(e.Args[1]) != config.CheckpointKeyHashKey {
+		if fired {
 			mu.Unlock()
 			return
 		}
-		fired, gcConn, hgetallIdx = true, e.Conn, idx
+		if gcConn < 0 {
+			if e.Cmd() != "hgetall" || len(e.Args) < 2 || string(e.Args[1]) != config.CheckpointKeyHashKey {
+				mu.Unlock()
+				return
+			}
+			gcConn, hgetallIdx = e.Conn, idx
+		} else if e.Conn == gcConn {
+			seenGc++
+		}
+		if e.Conn != gcConn || seenGc < late {
+			mu.Unlock()
+			return
+		}
+		fired = true
 		mu.Unlock()
 		// the gc has polled the sources; before it reads the hash the source fails over and the link relabels
 		relabelBegan = time.Now()
@@ -134,6 +155,10 @@ func vfC17GcRelabel(t *testing.T, s *vfutil.Session, seed uint64, tag int, src s
 	tg.CloseAll()
 	logAll := tg.LogCopy()
 	s.Count("gcrelabel_" + src)
+	if late > 0 && !fired {
+		s.Count("gcrelabel_late_point_beyond_pass")
+		return
+	}
 	if !fired || relabelErr != nil || relabelEnd < 0 {
 		s.Violate("C17gr:scenario-did-not-run", fmt.Sprintf("fired=%v relabel error=%v", fired, relabelErr), map[string]interface{}{"op": caseOp})
 		return
@@ -192,12 +217,19 @@ func vfC17GcRelabel(t *testing.T, s *vfutil.Session, seed uint64, tag int, src s
 	for _, w := range ws {
 		sp = append(sp, checkpoint.VfStartPoint(vfdoubles.Replay(logAll[:w+1], 0), ids))
 	}
+	if late > 0 {
+		s.Count("gcrelabel_relabel_inside_pass")
+	} else {
+		s.Count("gcrelabel_relabel_before_hash_read")
+	}
 	op := fmt.Sprintf("c17g %d %s %s %s %d %s %s", tag, vfutil.HexS(config.Version), checkpoint.VfHexList(ids), checkpoint.VfHexList(live), before, ord, dump.Encode())
 	out := []string{fmt.Sprintf("#%d n=%d sp=%s", tag, len(lines), sp[0])}
 	for i, l := range lines {
 		out = append(out, fmt.Sprintf("#%d %s sp=%s", tag, l, sp[i+1]))
 	}
-	s.Op(op, out...)
+	if late == 0 {
+		s.Op(op, out...)
+	}
 	s.Add("gcrelabel_gc_requests", len(lines))
 	if ages[0] > staleMin {
 		s.Count("gcrelabel_stored_mtime_stale")
